@@ -8,10 +8,12 @@ CHECK = {
                         "C14.gen_max_cloak", "C14.gen_structure", "C14.write_eq", "C14.read_eq", "DgDemux.isolation",
                         "C14.c14_entry_whole", "C14.c14_entry_transparent", "C14.c14_readfrom_whole", "C14.c14_readfrom_stream_unchanged",
                         "C14.gen_entry", "C14.gen_readfrom", "C14.gen_readfrom_refuses", "C14.gen_readfrom_room",
-                        "C14.c14_entry_pinned_witness", "C14.c14_entry_pinned_truncates", "C14.c14_readfrom_pinned_witness"],
+                        "C14.c14_entry_pinned_witness", "C14.c14_entry_pinned_truncates", "C14.c14_readfrom_pinned_witness",
+                        "C14R.gen_route_reuse", "C14R.gen_route_structure", "C14R.gen_route_tcp", "C14R.inv_step", "C14R.c14r_isolation_in", "C14R.c14r_isolation_back",
+                        "C14R.c14r_table_sound", "C14R.c14r_singleplex", "C14R.c14r_table_complete_witness"],
         "lean_module": "CloakModel.Props.C14All",
-        "scenarios": ["C14", "C14dl", "C14backlog"],
-        "reset_ops": ["dg.new", "dg.snew", "pdl.new"],
+        "scenarios": ["C14", "C14dl", "C14backlog", "C14route"],
+        "reset_ops": ["dg.new", "dg.snew", "pdl.new", "rt.new"],
         "rule": "(e) lagging reader (scenario C14backlog): unordered session pairs, one stream receiving 90 x 16132 B / 300 x 4000 B / 2500 x 600 B (thorough: 1200 x 16132 B, 40000 x 300 B) while nobody reads, then drained: every datagram Stream.Write accepted must come out whole and in order. "
                 "(d) read deadlines (scenario C14dl): seeded scripts on the real datagramBufferedPipe inside a synctest bubble: writes (data/empty/closing), reads that return, time out or park and are woken by a write / close / new deadline / the pipe's timer, deadlines set / moved / cleared / already expired, time passing across and exactly up to the deadline; every answer, every woken read and the queue compared with Model/PipeDeadline.lean; at the end the deadline is cleared and everything outstanding must come out whole and in order. "
                 "(c) entry points from a UDP socket: Stream.ReadFrom on unordered streams fed by a packet-oriented source (one Read = one datagram, "
